@@ -304,7 +304,25 @@ def run_impl(c):
         return {"m": res, "unchanged": a1._d == b1 and a2._d == b2 and list(a1._d) == list(b1) and list(a2._d) == list(b2)}
     f, Df = fdesc_feature(c["f"])
     g, Dg = fdesc_feature(c["g"])
-    return {"eq": bool(f == g) and not bool(f != g), "streq": str(f) == str(g), "hasheq": hash(f) == hash(g), "Df": Df, "Dg": Dg}
+    # equal Features hash alike also after in-place edits: a second copy of f is hashed, then both copies get the same
+    # edits through the attributes mapping / Feature[...] / the extra list, and only then is the first one hashed
+    f2, _ = fdesc_feature(c["f"])
+    f3, _ = fdesc_feature(c["f"])
+    edit_ok = True
+    try:
+        hash(f3)
+        for x in (f2, f3):
+            x.attributes["zz_edit"] = ["1"]
+            x["zz_item"] = "2"
+            ks = [k for k in x.attributes.keys() if k not in ("zz_edit", "zz_item")]
+            if ks:
+                x.attributes[ks[0]].append("more")
+            x.extra.append("xtra")
+        edit_ok = (f2 == f3) and str(f2) == str(f3) and hash(f2) == hash(f3) and hash(f3) == hash(str(f3))
+    except Exception:
+        edit_ok = False
+    return {"eq": bool(f == g) and not bool(f != g), "streq": str(f) == str(g), "hasheq": hash(f) == hash(g), "Df": Df, "Dg": Dg,
+            "edit_ok": edit_ok}
 
 
 def coq_pv(o):
@@ -334,7 +352,8 @@ def coq_case(c, o):
     if c["k"] == "merge":
         return "CMergeA %s %s %s %s %s" % (L.b(c["numeric"]), G.coq_attrs(c["a1"]), G.coq_attrs(c["a2"]), L.res(o["m"], G.coq_attrs),
                                            L.b(o["unchanged"]))
-    return "CEq %s %s %s %s %s" % (coq_fd(c["f"], o["Df"]), coq_fd(c["g"], o["Dg"]), L.b(o["eq"]), L.b(o["streq"]), L.b(o["hasheq"]))
+    return "CEq %s %s %s %s %s %s" % (coq_fd(c["f"], o["Df"]), coq_fd(c["g"], o["Dg"]), L.b(o["eq"]), L.b(o["streq"]), L.b(o["hasheq"]),
+                                      L.b(o.get("edit_ok", True)))
 
 
 def labels(c, o):
